@@ -252,9 +252,13 @@ impl Scenario for TwoWorld {
         }
         // "cannot speak into it"
         if self.kind == Hidden::SecretChannel {
-            for verb in ["PRIVMSG", "NOTICE"] {
+            for verb in ["PRIVMSG", "NOTICE", "PRIVMSG @", "NOTICE +", "PRIVMSG ~@", "PRIVMSG %"] {
                 w.take_all();
-                if let Err(e) = w.send(OBS, &format!("{} #s :psst", verb)) {
+                let (verb, pfx) = match verb.split_once(' ') {
+                    Some((v, p)) => (v, p),
+                    None => (verb, ""),
+                };
+                if let Err(e) = w.send(OBS, &format!("{} {}#s :psst", verb, pfx)) {
                     return vec![finding("machinery", e.0)];
                 }
                 for s in 0..2 {
